@@ -171,13 +171,22 @@ fn flate(data: &[u8]) -> Vec<u8> {
     let mut e = flate2::write::ZlibEncoder::new(Vec::new(), flate2::Compression::default());
     e.write_all(data).unwrap(); e.finish().unwrap()
 }
-/// PNG "Up" predictor (12) over rows of `cols` bytes
-fn png_up(data: &[u8], cols: usize) -> Vec<u8> {
+/// PNG predictor encoder over rows of `cols` bytes (bpp = 1): each row gets its own filter type
+/// (0 None, 1 Sub, 2 Up, 3 Average, 4 Paeth), chosen by `pick` — written from the PNG specification
+fn png_encode(data: &[u8], cols: usize, mut pick: impl FnMut() -> u8) -> Vec<u8> {
+    fn paeth(a: i32, b: i32, c: i32) -> i32 { let p = a + b - c; let (pa, pb, pc) = ((p - a).abs(), (p - b).abs(), (p - c).abs()); if pa <= pb && pa <= pc { a } else if pb <= pc { b } else { c } }
     let mut out = vec![]; let mut prev = vec![0u8; cols];
     for row in data.chunks(cols) {
         let mut row = row.to_vec(); row.resize(cols, 0);
-        out.push(2);
-        for i in 0..cols { out.push(row[i].wrapping_sub(prev[i])); }
+        let t = pick();
+        out.push(t);
+        for i in 0..cols {
+            let left = if i >= 1 { row[i - 1] as i32 } else { 0 };
+            let up = prev[i] as i32;
+            let ul = if i >= 1 { prev[i - 1] as i32 } else { 0 };
+            let pred = match t { 0 => 0, 1 => left, 2 => up, 3 => (left + up) / 2, _ => paeth(left, up, ul) };
+            out.push((row[i] as i32 - pred) as u8);
+        }
         prev = row;
     }
     out
@@ -344,9 +353,14 @@ pub fn write_file_with(r: &mut Rng, c: &mut Counters, style: &Style, version: &s
                 if style.compress {
                     let cols = w1 + w2 + w3;
                     if r.chance(1, 2) {
-                        content = flate(&png_up(&content, cols));
-                        let mut dp = Dictionary::new(); dp.set("Predictor", Object::Integer(12)); dp.set("Columns", Object::Integer(cols as i64));
-                        trailer.set("DecodeParms", Object::Dictionary(dp)); hit(c, "xrefstm.flate_predictor12");
+                        // every PNG row filter; Predictor 10..15 all read the per-row type byte
+                        let mode = r.below(6) as u8;
+                        let mut types: Vec<u8> = vec![];
+                        for _ in 0..(content.len() / cols.max(1) + 1) { types.push(if mode == 5 { r.below(5) as u8 } else { mode }); }
+                        let mut k = 0;
+                        content = flate(&png_encode(&content, cols, || { let t = types[k % types.len()]; k += 1; t }));
+                        let mut dp = Dictionary::new(); dp.set("Predictor", Object::Integer(10 + mode as i64)); dp.set("Columns", Object::Integer(cols as i64));
+                        trailer.set("DecodeParms", Object::Dictionary(dp)); hit(c, &format!("xrefstm.flate_predictor{}", 10 + mode));
                     } else { content = flate(&content); hit(c, "xrefstm.flate"); }
                     trailer.set("Filter", Object::Name(b"FlateDecode".to_vec()));
                 }
